@@ -31,7 +31,7 @@ import struct, math
 PROP = "C17"
 READY = True
 COQ_PROPS = ['Properties_C17']
-RULE = ('396 deterministic state-class cases (k in {10,30,100} x {0,1,2,several} centroids reached via update -> compress point [compress / get_quantile / serialize / deserialized image] x buffer of 1..3 values extending the range x each query kind issued FIRST after the buffered updates: get_quantile, get_rank, get_CDF, get_PMF, info, dump, serialize bytes/header/stream with and without buffer, merge as source and as target), then '
+RULE = ('doubling cases (1000 values merged with their own copy up to 26 times: total weight up to 2^34, round trips through bytes / header / stream and queries on the restored digest at the 2^31 / 2^32 / 2^33 crossings) for tdigest<double> (against the model) and tdigest<float> (implementation-only family with ordinary histories over float-representable values, judged by the property predicates); 396 deterministic state-class cases (k in {10,30,100} x {0,1,2,several} centroids reached via update -> compress point [compress / get_quantile / serialize / deserialized image] x buffer of 1..3 values extending the range x each query kind issued FIRST after the buffered updates: get_quantile, get_rank, get_CDF, get_PMF, info, dump, serialize bytes/header/stream with and without buffer, merge as source and as target), then '
         'operation scripts over up to four tdigest<double> registers: k in {10,20,50,100,200} (plus 11,29,30,31 and refused k<10), '
         'value streams sorted / reversed / uniform / gaussian / clustered / constant / few-distinct / integer / wide-magnitude / '
         'adjacent-doubles, NaN mixed in (ignored), at most one +inf and one -inf per case, update batches sized around the buffer '
@@ -218,8 +218,74 @@ def state_cases(rng):
                     cases.append(dict(id='st%d' % idx, ops=ops, tags=['state', 'nc_%s' % nc, 'nb%d' % nb, 'first_' + kind, 'k%d' % k]))
     return cases
 
+# ---------------------------------------------------------------------------------------------------------------------
+# Total weights beyond 2^32: "merge with own copy" doubling, then round trips (bytes / header / stream, with and without buffer)
+# and queries on the restored digest.  kind 'double': the copy is made through the serialized image (op 12, the model has it);
+# kind 'float': tdigest<float> (implementation-only family; centroid weights and W are 32 bits there), copy constructor (op 13).
+def fvals(rng, n, kind):
+    """float-representable values (integers and dyadic fractions)"""
+    if kind == 'seq': return [float(i) for i in range(n)]
+    if kind == 'dyadic': return [rng.randrange(-8000, 8000) / 8.0 for _ in range(n)]
+    if kind == 'rev': return [float(n - i) for i in range(n)]
+    return [float(rng.randrange(50)) for _ in range(n)]
+
+def doubling_cases(rng, tier, kind):
+    cases = []
+    confs = [(100, 1000, 'seq'), (200, 1000, 'dyadic'), (100, 700, 'few')] if tier == 'quick' else \
+            [(k, n, vk) for k in (50, 100, 200) for n in (1000, 513) for vk in ('seq', 'dyadic', 'rev', 'few')]
+    for ci, (k, n, vk) in enumerate(confs):
+        vals = fvals(rng, n, vk)
+        ops = [[1, 0, k], [2, 0] + [d2b(v) for v in vals]]
+        g = sorted(set([min(vals) - 1, max(vals) + 1, min(vals), max(vals)] + [rng.choice(vals) for _ in range(12)] +
+                       [(rng.choice(vals) + rng.choice(vals)) / 2 for _ in range(6)]))
+        qs = [0.0, 1.0, 0.5, 0.25, 0.75, 0.001, 0.999] + [rng.randrange(1, 64) / 64.0 for _ in range(6)]
+        nd = 25 if n >= 1000 else 26                      # n * 2^nd is about 2^34
+        for d in range(1, nd + 1):
+            if kind == 'float': ops.append([13, 0, 1])
+            else: ops.append([12, 0, 1, rng.choice([0, 1]), rng.choice([0, 1])])
+            ops.append([4, 0, 1])
+            if d in (1, 8, 21, 22, 23, 24, nd):           # total weight crosses 2^31, 2^32, 2^33 for n = 1000
+                ops.append([5, 0])
+                for wb, mode in ((1, 0), (0, 1), (1, 8)):
+                    ops.append([12, 0, 2, wb, mode]); ops.append([5, 2])
+                    for v in g: ops.append([6, 2, d2b(v)])
+                    for q in sorted(qs): ops.append([7, 2, d2b(q)])
+                    ops.append([8, 2] + [d2b(v) for v in g]); ops.append([9, 2] + [d2b(v) for v in g])
+                for v in g: ops.append([6, 0, d2b(v)])
+                ops.append([11, 0])
+        cases.append(dict(id='dbl_%s%d' % (kind[0], ci), ops=ops, tags=['doubling', 'weight>2^32', 'k%d' % k, vk]))
+    return cases
+
+def gen_float(rng, tier):
+    """tdigest<float>: the doubling cases plus ordinary histories over float-representable values"""
+    cases = doubling_cases(rng, tier, 'float')
+    for ci in range(30 if tier == 'quick' else 300):
+        k = rng.choice([10, 20, 50, 100, 200]); c = cap(k)
+        ops = [[1, 0, k], [1, 1, rng.choice([k, 100])]]
+        allv = {0: [], 1: []}
+        for _ in range(rng.choice([3, 6, 10])):
+            r = rng.randrange(2); x = rng.random()
+            if x < 0.5:
+                n = rng.choice([1, 2, 7, c // 4, c + 3]); vs = fvals(rng, n, rng.choice(['seq', 'dyadic', 'rev', 'few']))
+                ops.append([2, r] + [d2b(v) for v in vs]); allv[r] += vs
+            elif x < 0.65:
+                ops.append([4, r, 1 - r]); allv[r] = allv[r] + allv[1 - r]
+            elif x < 0.8:
+                ops.append([12, r, 1 - r, rng.choice([0, 1]), rng.choice([0, 1, 8])]); allv[1 - r] = list(allv[r])
+            elif x < 0.9: ops.append([10, r])
+            else: ops.append([5, r]); ops.append([7, r, d2b(rng.choice([0.0, 1.0, 0.5]))])
+        for r in (0, 1):
+            ops.append([5, r]); ops.append([11, r])
+            if allv[r]:
+                g = sorted(set([min(allv[r]) - 1, max(allv[r]) + 1] + [rng.choice(allv[r]) for _ in range(20)] + [rng.choice(allv[r]) + 0.5 for _ in range(8)]))
+                for v in g: ops.append([6, r, d2b(v)])
+                ops.append([8, r] + [d2b(v) for v in g]); ops.append([9, r] + [d2b(v) for v in g])
+                for q in [0.0, 1.0] + [i / 16.0 for i in range(1, 16)]: ops.append([7, r, d2b(q)])
+        cases.append(dict(id='fl%d' % ci, ops=ops, tags=['float', 'k%d' % k]))
+    return cases
+
 def gen(rng, tier):
-    return state_cases(rng) + gen_random(rng, tier)
+    return state_cases(rng) + doubling_cases(rng, tier, 'double') + gen_random(rng, tier)
 
 def gen_random(rng, tier):
     ncases = 70 if tier == 'quick' else 900
@@ -362,6 +428,9 @@ def oracle(case, irecs, mrecs):
         elif code == 4 and len(op) > 2 and op[2] in gt:
             h = gt[op[2]]
             gt[r] = [g[0] + h[0], min(g[1], h[1]), max(g[2], h[2])]; bump(r)
+        elif code == 13 and len(op) > 2:
+            if R == [1]:
+                gt[op[2]] = list(g); bump(op[2]); kreg[op[2]] = kreg.get(r)
         elif code == 12 and len(op) > 3:
             if R == [1]:
                 gt[op[2]] = list(g); bump(op[2]); kreg[op[2]] = kreg.get(r)
@@ -487,7 +556,9 @@ def oracle(case, irecs, mrecs):
 FAMILIES = [dict(name='tdigest', harness='drv_tdigest.cpp', extract='Extract_tdigest.v', model='model_tdigest',
                  run='(run (fun x -> Float64.of_float (Stdlib.log (Float64.to_float x))))',
                  ocaml_flags='-rectypes -thread -package coq-core.kernel -linkpkg',
-                 cxx_flags='-ffp-contract=off', gen=gen, oracle=oracle)]
+                 cxx_flags='-ffp-contract=off', gen=gen, oracle=oracle),
+            # tdigest<float>: no Coq model (its arithmetic is binary32); the property predicates alone judge the implementation
+            dict(name='tdigest_float', harness='drv_tdigest_f.cpp', cxx_flags='-ffp-contract=off', gen=gen_float, oracle=oracle)]
 
 MANIFEST = dict(
     level_text=('PROVED in Coq for ALL histories (coq/Properties_C17.v, 21 theorems and corollaries; reachable = any sequence of new / update / merge of '
